@@ -52,6 +52,40 @@ def n_random_fixed(facts):
     return r, f
 
 
+def ambiguous_thetas(facts):
+    """estimated thetas that reach an eta only through another individual parameter (derived
+    rate constants such as K12 = Q/V): random under the broad, fixed under the narrow reading"""
+    return [p['name'] for p in facts['params']
+            if not p['fix'] and p['kind'] == 'theta' and p['with_eta'] and not p.get('with_eta_direct', p['with_eta']) and not p.get('dead')]
+
+
+def bic_mixed_admissible(ll: float, facts):
+    """All values the mixed BIC may take when the classification of some thetas is open:
+    every estimated parameter is counted exactly once, as random OR fixed (never both, never
+    neither); only a parameter that no longer influences the model (dead) may also be left out."""
+    amb = set(ambiguous_thetas(facts))
+    r0 = f0 = d = 0
+    for p in facts['params']:
+        if p['fix']:
+            continue
+        if p.get('dead'):
+            d += 1
+        elif p['name'] in amb:
+            continue
+        elif p['kind'] == 'omega' or (p['kind'] == 'theta' and p['with_eta']):
+            r0 += 1
+        else:
+            f0 += 1
+    a = len(amb)
+    ln, lo = math.log(facts['n_ind']), math.log(facts['n_obs'])
+    out = set()
+    for i in range(a + 1):
+        for k in range(d + 1):
+            for m in range(d + 1 - k):
+                out.add(ll + (r0 + i + k) * ln + (f0 + (a - i) + m) * lo)
+    return sorted(out)
+
+
 def aic(ll: float, facts) -> float:
     # calculate_aic docstring:  "AIC = -2LL + 2*n_estimated_parameters"
     return ll + 2 * n_estimated(facts)
